@@ -99,17 +99,42 @@ theorem createTable_rel_spec {w w' : World} (h : SInv w) {a : Nat} {rels : List 
     (hok : createTable a rels w = .ok t w') : CreatedTable w w' a rels t ∧ SInv w' :=
   h.createTable_rel ha hr hok
 
-/-- (2d) `createTable` is: the three argument checks, then the storage part `createTableS`, then
-    `cache.addTable` (`ctFinish`) -/
+/-- (2d) `createTable` is: the argument checks (length; the first loop `checkRelList`: a relation
+    component named twice panics `.relTwice` — the repair of defect D18, §7 —, a component that is
+    no column is the Go index −1 `.runtime` panic; `RelsValid`), then the storage part
+    `createTableS`, then `cache.addTable` (`ctFinish`) -/
 theorem createTable_decomposition (a : Nat) (rels : List RelID) (w : World) :
     createTable a rels w =
       if rels.length < (w.arch a).numRel then .panic .relUnspecified w
-      else if (rels.all fun r => ((w.arch a).colIdx r.comp).isSome) = false then .panic .runtime w
-      else if RelsValid w rels then ctFinish (createTableS w a rels)
-      else .panic (relPanic w rels) w :=
+      else match checkRelList (w.arch a) [] rels with
+        | some k => .panic k w
+        | none =>
+          if RelsValid w rels then ctFinish (createTableS w a rels)
+          else .panic (relPanic w rels) w :=
   createTable_eq a rels w
 
-/-- (2d) totality: when the arguments pass the three checks and the cached filters are
+/-- (2d) the first loop of `createTable` (`checkRelList`, with the check added by the repair of
+    defect D18, see §7) passes exactly when no relation component is named twice and every named
+    component is a column of the archetype -/
+theorem checkRelList_passes_iff (A : Archetype) (rels : List RelID) :
+    checkRelList A [] rels = none ↔
+      (rels.map (·.comp)).Nodup ∧ ∀ (r : RelID), r ∈ rels → (A.colIdx r.comp).isSome = true :=
+  checkRelList_nil_eq_none_iff A rels
+
+/-- (2d) a successful `createTable` was given a relation list naming no component twice -/
+theorem createTable_rels_nodup {a : Nat} {rels : List RelID} {w w' : World} {t : Nat}
+    (h : createTable a rels w = .ok t w') : (rels.map (·.comp)).Nodup :=
+  createTable_ok_nodup h
+
+/-- (2d) a relation list naming a component twice is rejected with the state unchanged -/
+theorem createTable_rejects_twice {a : Nat} {rels : List RelID} {w : World}
+    (h : ¬ (rels.map (·.comp)).Nodup) :
+    ∃ (k : PanicKind), createTable a rels w = .panic k w ∧
+      (k = .relUnspecified ∨ k = .relTwice ∨ k = .runtime) :=
+  createTable_not_nodup h
+
+/-- (2d) totality: when the arguments pass the checks (`hnd`: no relation component named
+    twice, forced by the repair of D18) and the cached filters are
     well-formed (`CacheRelsOK`: every relation a cached filter fixes names a component the filter
     requires), `createTable` succeeds. -/
 theorem createTable_total {w : World} (h : SInvMid w) (hc : CacheRelsOK w) {a : Nat}
@@ -117,9 +142,10 @@ theorem createTable_total {w : World} (h : SInvMid w) (hc : CacheRelsOK w) {a : 
     (hnr : (w.arch a).hasRelations = false → (w.arch a).tables.tables = [])
     (h1 : (w.arch a).numRel ≤ rels.length)
     (h2 : ∀ (r : RelID), r ∈ rels → ((w.arch a).colIdx r.comp).isSome = true)
+    (hnd : (rels.map (·.comp)).Nodup)
     (h3 : RelsValid w rels) :
     ∃ (t : Nat) (w' : World), createTable a rels w = .ok t w' ∧ CreatedTable w w' a rels t :=
-  h.createTable_total hc ha hnr h1 h2 h3
+  h.createTable_total hc ha hnr h1 h2 hnd h3
 
 /-- (2e) `getTable` never changes the state … -/
 theorem getTable_pure (a : Nat) (rels : List RelID) (w : World) : (getTable a rels w).state = w :=
@@ -494,38 +520,85 @@ example :
 example : findOrCreateTableAdd 1 (Mask.ofList [0]) [1, 0] [] demo1 = .panic .alreadyHas demo1 :=
   findOrCreateTableAdd_rejects 1 (Mask.ofList [0]) [1] 0 [] [] demo1 (by decide +kernel)
 
-/-! ## 7. a recorded finding: the same relation component listed twice
+/-! ## 7. a recorded finding, repaired: the same relation component listed twice (defect D18)
 
-`createTable` only checks `len(relations) ≥ numRelations`; it writes `targets[idx]` per relation
-(the last one wins) but stores the WHOLE list as the table's `relationIDs`.  So a relation list
-naming one relation component twice is accepted, `relIDs.length > numRel` (which is why `SInv`
-only says "every listed relation names a relation column"), and once the overwritten target dies
-an unrelated `Add` on such an entity is rejected with `deadTarget`, because
-`findOrCreateTableAdd` hands the stale pair back to `createTable`.  The Go code behaves the same
+This was defect D18 of the Go library, found by proof.  The unrepaired `createTable` only checked
+`len(relations) ≥ numRelations`; it wrote `targets[idx]` per relation (the last one won) but
+stored the WHOLE list as the table's `relationIDs`.  So a relation list naming one relation
+component twice was accepted, `relIDs.length > numRel`, and once the overwritten target died an
+unrelated `Add` on such an entity was rejected with `deadTarget`, because `findOrCreateTableAdd`
+handed the stale pair back to `createTable`
 (`Unsafe.NewEntityRel(ids, RelID(c, p1), RelID(c, p2)); RemoveEntity(p1); Unsafe.Add(e, pos)`
-panics "can't use a dead entity as relation target"). -/
+panicked "can't use a dead entity as relation target").
 
-def dup0 : World :=
+The repair (`var seen bitMask` in the first loop of `createTable`; `checkRelList` in the model)
+REJECTS such a list with "relation component %d specified more than once" (`.relTwice`):
+`createTable_rels_nodup`, `createTable_rejects_twice` above.  What the model says about the
+history of the finding, exactly: the `NewEntity` panics `.relTwice`; `createTable` itself leaves
+the state as it found it, but `findOrCreateTable` has already created the archetype `{0}` (Go:
+`createArchetype` runs before `createTable`), which stays behind WITHOUT a table — as after every
+other panic of `createTable` (e.g. `deadTarget`).  Tables, entity index, pool, cache and lock are
+untouched, `SInv` holds, and a later well-formed creation uses the archetype. -/
+
+/-- two entities (2, 3), relation component 0 and ordinary component 1 registered -/
+def dupPre : World :=
   let w := World.init 1 1
   let w := (registerComponent { isRel := true } w).state
   let w := (registerComponent {} w).state
   let w := (opNewEntity0 noProbe w).state                                              -- entity 2
-  let w := (opNewEntity0 noProbe w).state                                              -- entity 3
-  (opNewEntity noProbe .unsafe_ [0] [] [⟨0, ⟨2, 0⟩⟩, ⟨0, ⟨3, 0⟩⟩] w).state              -- entity 4
+  (opNewEntity0 noProbe w).state                                                       -- entity 3
 
-def dup1 : World := (opRemoveEntity noProbe ⟨2, 0⟩ dup0).state
+/-- the history of the finding: `NewEntity` naming relation component 0 twice (targets 2, 3) -/
+def dupTry : Res World Ent :=
+  opNewEntity noProbe .unsafe_ [0] [] [⟨0, ⟨2, 0⟩⟩, ⟨0, ⟨3, 0⟩⟩] dupPre
+
+/-- the world the rejected call leaves behind -/
+def dup0 : World := dupTry.state
+
+/-- a well-formed creation afterwards (entity 4 with relation 0 → 3) -/
+def dup1 : World := (opNewEntity noProbe .unsafe_ [0] [] [⟨0, ⟨3, 0⟩⟩] dup0).state
 
 def panicOf {α : Type} (r : Res World α) : Option PanicKind :=
   match r with
   | .ok _ _ => none
   | .panic k _ => some k
 
+/-- **the history of D18 is now rejected**: `relTwice`; no entity, no table was created; the
+    archetype `{0}` created on the way stays, without tables -/
 example :
-    (summary dup0).tables = [⟨0, 2, false, []⟩, ⟨1, 1, false, [(0, 2), (0, 3)]⟩] ∧
-    (dup0.arch 1).numRel = 1 ∧ (dup0.tbl 1).getRelation 0 = ⟨3, 0⟩ ∧
-    panicOf (opRemoveEntity noProbe ⟨2, 0⟩ dup0) = none ∧
-    (summary dup1).tables = [⟨0, 1, false, []⟩, ⟨1, 1, false, [(0, 2), (0, 3)]⟩] ∧
-    panicOf (opAdd noProbe .unsafe_ ⟨4, 0⟩ [1] [] [] dup1) = some .deadTarget := by
+    panicOf dupTry = some .relTwice ∧
+    summary dupPre = ⟨[⟨[], [0], [], 0⟩], [⟨0, 2, false, []⟩]⟩ ∧
+    summary dup0 = ⟨[⟨[], [0], [], 0⟩, ⟨[0], [], [], 1⟩], [⟨0, 2, false, []⟩]⟩ ∧
+    dup0.tables = dupPre.tables ∧ dup0.entities = dupPre.entities ∧ dup0.pool = dupPre.pool ∧
+    dup0.cache = dupPre.cache ∧ dup0.isLocked = false ∧
+    dup0.alive ⟨2, 0⟩ = true ∧ dup0.alive ⟨3, 0⟩ = true ∧ dup0.alive ⟨4, 0⟩ = false := by
+  decide +kernel
+
+/-- the rejection at the level of `createTable` (archetype 1 = `{0}` of `dup0`): state unchanged;
+    the same for a triple whose repetition is not adjacent; a list naming a non-column FIRST is
+    the runtime panic as before; too short a list is `relUnspecified` as before -/
+example :
+    createTable 1 [⟨0, ⟨2, 0⟩⟩, ⟨0, ⟨3, 0⟩⟩] dup0 = .panic .relTwice dup0 ∧
+    createTable 1 [⟨0, ⟨2, 0⟩⟩, ⟨0, ⟨2, 0⟩⟩] dup0 = .panic .relTwice dup0 ∧
+    createTable 1 [⟨1, ⟨2, 0⟩⟩, ⟨0, ⟨2, 0⟩⟩, ⟨0, ⟨3, 0⟩⟩] dup0 = .panic .runtime dup0 ∧
+    createTable 1 [⟨0, ⟨2, 0⟩⟩, ⟨1, ⟨2, 0⟩⟩, ⟨0, ⟨3, 0⟩⟩] dup0 = .panic .runtime dup0 ∧
+    createTable 1 [] dup0 = .panic .relUnspecified dup0 :=
+  ⟨createTable_of_check (by decide +kernel) (by decide +kernel),
+   createTable_of_check (by decide +kernel) (by decide +kernel),
+   createTable_of_check (by decide +kernel) (by decide +kernel),
+   createTable_of_check (by decide +kernel) (by decide +kernel),
+   createTable_of_short (by decide +kernel)⟩
+
+/-- afterwards a well-formed creation is accepted and settles in the archetype left behind;
+    removing the target and an unrelated `Add` then work (the `deadTarget` of D18 is gone) -/
+example :
+    panicOf (opNewEntity noProbe .unsafe_ [0] [] [⟨0, ⟨3, 0⟩⟩] dup0) = none ∧
+    summary dup1 = ⟨[⟨[], [0], [], 0⟩, ⟨[0], [1], [], 1⟩],
+      [⟨0, 2, false, []⟩, ⟨1, 1, false, [(0, 3)]⟩]⟩ ∧
+    (dup1.arch 1).numRel = 1 ∧ (dup1.tbl 1).getRelation 0 = ⟨3, 0⟩ ∧
+    panicOf (opRemoveEntity noProbe ⟨2, 0⟩ dup1) = none ∧
+    panicOf (opAdd noProbe .unsafe_ ⟨4, 0⟩ [1] [] []
+      (opRemoveEntity noProbe ⟨2, 0⟩ dup1).state) = none := by
   decide +kernel
 
 /-- the structural invariant is not affected -/
